@@ -1041,8 +1041,12 @@ func (m *model) checkDone(snap snapshot) {
 			}
 			continue
 		}
-		if m.anyBroken(c) {
+		if m.anyBroken(c) || m.brokenSerial[r.serial] || m.brokenSerial[r.fSerial] || (g != nil && m.brokenSerial[g.serial]) {
 			continue // what a client gets for a deliberately broken upstream stream is not specified; only that it finishes
+		}
+		if c.DecodeErr != "" && m.anyBrokenSoFar() {
+			// an undecodable body while broken streams are around: which exchange it stems from cannot be told from the body
+			continue
 		}
 		// C06: whatever was delivered must echo the client's own triple
 		if c.Echo != "" {
@@ -1110,6 +1114,8 @@ func (m *model) checkDone(snap snapshot) {
 		}
 	}
 }
+
+func (m *model) anyBrokenSoFar() bool { return len(m.brokenSerial) > 0 }
 
 func (m *model) anyBroken(c *clientRec) bool {
 	m.w.mu.Lock()
